@@ -1,5 +1,5 @@
 """C17 — Selective (lazy) solving equals full recomputation: the invalidation discipline (DESIGN.md 3, C17)."""
-from .. import ex, lib, ir
+from .. import cg, ex, lib, ir
 from ..core import where
 from ..ir import AnalysisBroken
 
@@ -252,6 +252,39 @@ def run(ctx):
         detail = bad5[0] if bad5 else ('elements enter enabled_element_set_ at line %s after the last flagging' % late[0] if late else '')
         ctx.check(bool(sts) and not bad5 and not late, 'R5', '%s: flagging is ordered with the moves of the elements (%s)' % (short, ''.join(sorted(kinds))), where(f), detail, key='R5|%s|order' % short)
     ctx.require(n5 >= 3, 'R5', 'only %d System methods moving elements of enabled_element_set_ found' % n5)
+    # ---- R6 flagging a variable flags each of its constraints ----------------------------------------------------------------------------------------
+    ctx.rule('R6', 'update_modified_cnst_set_from_variable hands every constraint of the variable to update_modified_cnst_set (a loop over var->cnsts_): reaching the others '
+             'through the recursive walk from the first one does not work when that first constraint is already in the modified set, since the walk only starts from a '
+             'constraint that is newly added', 1)
+    fv_ = P.fn(SYS + '::update_modified_cnst_set_from_variable')
+    vv = A.view(fv_)
+    varp = lib.parm_i(fv_, 0)
+    loop_ok = False
+    direct = []
+    for h in vv.loop_heads():
+        if h['t'].get('k') not in ('CXXForRangeStmt', 'ForStmt', 'WhileStmt'):
+            continue
+        body = cg.natural_loop(vv, h['id'])
+        rng = [d for el in fv_['elems'] if el['x'].get('k') == 'Decl' and el.get('l') == h['t'].get('l') for d in el['x'].get('decls', ())
+               if d.get('d', {}).get('n', '').startswith('__range') and d.get('init') is not None]
+        over_cnsts = bool(rng) and ex.mentions(vv.norm(rng[0]['init']), ('field', varp, VAR + '::cnsts_')) or any('cnsts_' in repr(vv.cond_atom(b)) for b in body | {h['id']} if vv.cond_atom(b))
+        calls = [e for b in body for eid in vv.blocks[b].get('e', []) for e in vv.events_of(eid) if e.kind == 'call' and e.q == SYS + '::update_modified_cnst_set']
+        conds = [b for b in body if len(vv.succs(b)) > 1 and not vv.is_log_branch(b)]
+        if over_cnsts and calls and not conds:
+            loop_ok = True
+    inloops = set()
+    for h in vv.loop_heads():
+        inloops |= cg.natural_loop(vv, h['id'])
+    for eid in range(len(fv_['elems'])):
+        if fv_['elems'][eid].get('b') in inloops:
+            continue
+        for e in vv.events_of(eid):
+            if e.kind == 'call' and e.q == SYS + '::update_modified_cnst_set' and e.args and any(x[0] in ('idx',) or (x[0] == 'call' and x[1].rsplit('::', 1)[-1] in ('operator[]', 'front', 'back', 'at')) for x in ex.subterms(e.args[0])):
+                direct.append(e)
+    ctx.check(loop_ok and not direct, 'R6', 'update_modified_cnst_set_from_variable: every constraint of the variable is handed to update_modified_cnst_set', where(fv_, direct[0].line if direct else None),
+              ('only %s is flagged: when it is already in the modified set nothing is walked and the other constraints of the variable are not recomputed (two modifications between '
+               'two solves: tools/triage/c17_first_constraint_already_marked.cpp)' % ex.pretty(direct[0].args[0])) if direct else ('' if loop_ok else 'no unconditional loop over var->cnsts_ flags the constraints'),
+              key='R6|update_modified_cnst_set_from_variable|every constraint')
     ctx.assume('setters listed as pre-solve exceptions are only used while resources are created (not re-verified here)')
     return EXPLANATION
 
